@@ -1,16 +1,28 @@
 (* Corr/Cmps.v — the comparers the harness uses, by id (harness/lib/vlib/cmps.go). *)
-From GL Require Export Base.Order Codec.BytesCmp Codec.BytesCmpProofs.
+From GL Require Export Base.Order Base.OrderPre Codec.BytesCmp Codec.BytesCmpProofs Codec.CiCmp Codec.CiCmpProofs.
 
 Definition cmp_of_id (id : N) : comparer :=
   match id with
   | 0 => bytewise
   | 1 => shortlex
   | 2 => xorcmp 85
+  | 4 => cicmp
   | _ => xorcmp 255
   end.
 
-Lemma cmp_of_id_ok id : comparer_ok (cmp_of_id id).
+(* ids other than 4 are injective comparers (the full contract comparer_ok) *)
+Lemma cmp_of_id_ok id : id <> 4 -> comparer_ok (cmp_of_id id).
 Proof.
-  unfold cmp_of_id. destruct id as [|[[|[]|]|[|[]|]|]];
-    first [apply bytewise_ok | apply shortlex_ok | apply xorcmp_ok].
+  unfold cmp_of_id. intros H. destruct id as [|[[|[]|]|[|[[]| |]|]|]];
+    first [congruence | apply bytewise_ok | apply shortlex_ok | apply xorcmp_ok].
 Qed.
+
+(* every id satisfies the preorder contract; id 4 (ASCII case-insensitive) is not injective *)
+Lemma cmp_of_id_pre_ok id : comparer_pre_ok (cmp_of_id id).
+Proof.
+  destruct (N.eq_dec id 4) as [->|H]; [apply cicmp_pre_ok|].
+  apply comparer_ok_pre. apply cmp_of_id_ok. exact H.
+Qed.
+
+Lemma cmp_of_id_4_not_injective : ~ comparer_ok (cmp_of_id 4).
+Proof. apply cicmp_not_injective. Qed.
